@@ -43,6 +43,8 @@ func (f c18Fault) String() string {
 		return fmt.Sprintf("refuse-bytes-at-or-after(%d,%s)", f.at, st)
 	case 2:
 		return fmt.Sprintf("quota(%d,%s)", f.at, st)
+	case 3:
+		return fmt.Sprintf("underlying-writer-is-a-SectionWriter-of-length(%d)", f.at)
 	}
 	return "none"
 }
@@ -66,6 +68,15 @@ func (f c18Fault) accept(off int64, n int, sofar int64) (int, bool) {
 			room = 0
 		}
 		if int64(k) > room {
+			k = int(room)
+		}
+	case 3:
+		// what an enclosing SectionWriter of length f.at does to the calls it receives: bytes below its end pass,
+		// a call starting at or beyond its end is refused even when it carries no bytes
+		if off >= f.at {
+			return 0, true
+		}
+		if room := f.at - off; int64(k) > room {
 			k = int(room)
 		}
 	}
@@ -93,10 +104,13 @@ type c18Dev struct {
 	calls    int
 	lo, hi   int64 // extent of all bytes ever offered (accepted or not) in this op
 	touched  bool
+	inert    bool  // the device accepts everything; fault only describes what a writer stacked in between does
+	shift    int64 // subtracted from every offset before recording (the stacked writer's own start)
 }
 
 func (d *c18Dev) WriteAt(p []byte, off int64) (int, error) {
 	d.calls++
+	off -= d.shift
 	if len(p) > 0 {
 		if !d.touched || off < d.lo {
 			d.lo = off
@@ -107,6 +121,9 @@ func (d *c18Dev) WriteAt(p []byte, off int64) (int, error) {
 		d.touched = true
 	}
 	k, failed := d.fault.accept(off, len(p), d.accepted)
+	if d.inert {
+		k, failed = len(p), false
+	}
 	for i := 0; i < k; i++ {
 		d.image[off+int64(i)] = p[i]
 		d.op = append(d.op, c18Assign{off + int64(i), p[i]})
@@ -140,21 +157,29 @@ func c18Class(err error) int {
 }
 
 type c18Mon struct {
-	w      *mon.W
-	sw     *iohelper.SectionWriter
-	wr     io.Writer // AtToWriter view (Write only)
-	dev    *c18Dev
-	base   int64
-	n      int64 // section length
-	limit  int64
-	cursor int64 // absolute
-	image  map[int64]byte
-	sofar  int64
-	seq    byte
-	hist   []string
-	trans  map[uint64]struct{}
-	atw    bool
-	file   *os.File // set: the section writer writes to this real file, not to dev
+	w        *mon.W
+	sw       *iohelper.SectionWriter
+	wr       io.Writer // AtToWriter view (Write only)
+	dev      *c18Dev
+	base     int64
+	n        int64 // section length
+	limit    int64
+	cursor   int64 // absolute
+	image    map[int64]byte
+	sofar    int64
+	seq      byte
+	hist     []string
+	trans    map[uint64]struct{}
+	atw      bool
+	file     *os.File // set: the section writer writes to this real file, not to dev
+	faultCls int      // error class expected when the model's fault is hit (c18DevErr; c18Short when the "device" is an enclosing section)
+}
+
+func (c *c18Mon) faultClass() int {
+	if c.faultCls != 0 {
+		return c.faultCls
+	}
+	return c18DevErr
 }
 
 func (c *c18Mon) detail(extra mon.D) mon.D {
@@ -298,7 +323,7 @@ func (c *c18Mon) Write(n int) bool {
 		expN = k
 		switch {
 		case failed:
-			expErr = c18DevErr
+			expErr = c.faultClass()
 		case trunc:
 			expErr = c18Short
 		}
@@ -370,7 +395,7 @@ func (c *c18Mon) WriteAt(n int, off int64) bool {
 		expN = k
 		switch {
 		case failed:
-			expErr = c18DevErr
+			expErr = c.faultClass()
 		case trunc:
 			expErr = c18Short
 		}
@@ -494,6 +519,11 @@ type c18Plan struct {
 	base, n int64
 	fault   c18Fault
 	osfile  bool // the underlying io.WriterAt is a real *os.File (no injected faults; effects are read back from the file)
+	// nested: the underlying io.WriterAt is itself a SectionWriter (start outerBase, length outerLen) over the
+	// recording device; base is relative to it. From the inner section's point of view that is an underlying writer
+	// which writes short at its own end.
+	nested              bool
+	outerBase, outerLen int64
 }
 
 func c18Plans() []c18Plan {
@@ -525,7 +555,7 @@ func init() {
 		Flavours: releaseThenGo126,
 		Required: []string{"write/inside", "write/last-byte", "write/at-end", "write/beyond-end", "write/truncated", "write/empty-buffer", "writeat/at-or-beyond-end", "writeat/truncated", "writeat/ends-exactly-at-limit",
 			"writeat/negative-offset", "seek/whence=0", "seek/whence=1", "seek/whence=2", "seek/invalid-whence", "seek/before-start", "seek/beyond-end", "fault/hit-in-Write", "fault/hit-in-WriteAt", "fault/late-error-style",
-			"section/n=0", "attowriter", "write-after-seek", "write-after-partial-write", "section/ends-at-MaxInt64", "writeat/offset=MaxInt64", "underlying/*os.File"},
+			"section/n=0", "attowriter", "write-after-seek", "write-after-partial-write", "section/ends-at-MaxInt64", "writeat/offset=MaxInt64", "underlying/*os.File", "underlying/*SectionWriter", "underlying/*SectionWriter/inner-reaches-beyond-outer", "attowriter/over-a-SectionWriter"},
 		Families: func(c *mon.Config) []mon.Family {
 			reps := c.Pick(80, 12000)
 			return []mon.Family{
@@ -534,6 +564,12 @@ func init() {
 				{Name: "at-to-writer", Env: 4, N: c.Pick(6000, 600000), Run: c18AtToWriter},
 				{Name: "os-file", Env: 2, N: c.Pick(400, 40000), Run: func(w *mon.W, idx int) {
 					c18History(w, c18Plan{base: int64(w.Rng.Pick(0, 1, 7, 1000, 4096)), n: int64(w.Rng.Pick(0, 1, 8, 29, 100, 1000, 5000)), osfile: true}, idx)
+				}},
+				{Name: "nested-sections", Env: 2, N: c.Pick(2000, 200000), Run: func(w *mon.W, idx int) {
+					r := w.Rng
+					ol := int64(r.Pick(0, 1, 5, 8, 29, 100))
+					p := c18Plan{nested: true, outerBase: int64(r.Pick(0, 1, 10, 1000)), outerLen: ol, base: int64(r.Intn(int(ol) + 3)), n: int64(r.Pick(0, 1, 3, 10, 29, 200))}
+					c18History(w, p, idx)
 				}},
 				{Name: "near-maxint64", N: c.Pick(3000, 300000), Run: c18NearMax},
 			}
@@ -544,6 +580,12 @@ func init() {
 func c18NewMon(w *mon.W, p c18Plan) *c18Mon {
 	dev := &c18Dev{fault: p.fault, image: map[int64]byte{}}
 	w.Op, w.A, w.B = "NewSectionWriter", p.base, p.n
+	if p.nested {
+		dev := &c18Dev{fault: c18Fault{kind: 3, at: p.outerLen}, inert: true, shift: p.outerBase, image: map[int64]byte{}}
+		outer := iohelper.NewSectionWriter(dev, p.outerBase, p.outerLen)
+		return &c18Mon{w: w, sw: iohelper.NewSectionWriter(outer, p.base, p.n), dev: dev, base: p.base, n: p.n, limit: p.base + p.n, cursor: p.base,
+			image: map[int64]byte{}, trans: map[uint64]struct{}{}, faultCls: c18Short}
+	}
 	if p.osfile {
 		f, err := os.CreateTemp(w.Cfg.WorkDir, "c18-section-*.bin")
 		if err != nil {
@@ -578,6 +620,12 @@ func c18History(w *mon.W, p c18Plan, idx int) {
 	defer c.cleanup()
 	if p.osfile {
 		w.Bucket("underlying/*os.File")
+	}
+	if p.nested {
+		w.Bucket("underlying/*SectionWriter")
+		if p.base+p.n > p.outerLen {
+			w.Bucket("underlying/*SectionWriter/inner-reaches-beyond-outer")
+		}
 	}
 	if p.n == 0 {
 		w.Bucket("section/n=0")
@@ -696,9 +744,22 @@ func c18AtToWriter(w *mon.W, idx int) {
 		dev.fault = c18Fault{kind: 2, at: int64(r.Intn(300)), late: r.Bool()}
 	}
 	w.Op, w.A = "AtToWriter", off
-	wr := iohelper.AtToWriter(dev, off)
+	var under io.WriterAt = dev
+	cls := 0
+	if idx%4 == 3 {
+		// AtToWriter over a SectionWriter: the stream ends where that section ends
+		ol := int64(r.Pick(0, 1, 17, 100, 300))
+		off = int64(r.Intn(int(ol) + 3))
+		ob := int64(r.Pick(0, 7, 4096))
+		dev.fault = c18Fault{kind: 3, at: ol}
+		dev.inert, dev.shift = true, ob
+		under = iohelper.NewSectionWriter(dev, ob, ol)
+		cls = c18Short
+		w.Bucket("attowriter/over-a-SectionWriter")
+	}
+	wr := iohelper.AtToWriter(under, off)
 	c := &c18Mon{w: w, wr: wr, atw: true, dev: dev, base: off, n: math.MaxInt64 - off, limit: math.MaxInt64, cursor: off,
-		image: map[int64]byte{}, trans: map[uint64]struct{}{}}
+		image: map[int64]byte{}, trans: map[uint64]struct{}{}, faultCls: cls}
 	h := gen.Hash64(77, uint64(off), uint64(dev.fault.kind), uint64(dev.fault.at))
 	for k := 1 + r.Intn(12); k > 0; k-- {
 		n := r.Pick(0, 1, 2, 17, r.Intn(120))
